@@ -106,9 +106,31 @@ def _standin(rep, tier, seed, only_search=False):
             if not ok2:
                 rep.violation("sliced Wasserstein law '%s' fails on %s" % (name, {"PD1": P1, "PD2": P2, "PD3": P3, "M": M, "shift": c}),
                               "sw:law:" + name, {"input": {"PD1": P1, "PD2": P2, "PD3": P3, "M": M, "shift": c}, "observed": d})
+    from persim import sliced_wasserstein as _swf
+    # integer-valued diagrams as integer arrays (odd b+d included), and points shared by both diagrams with different multiplicities
+    for it in range(40 if tier == "quick" else 800):
+        mk = lambda k: [[float(b), float(b + rng.randint(0, 5))] for b in (rng.randint(-3, 6) for _ in range(k))]
+        P1, P2 = mk(rng.randint(1, 5)), mk(rng.randint(0, 5))
+        if it % 2 == 0 and P1:
+            sh = rng.choice(P1)
+            P1 = P1 + [list(sh)] * rng.randint(0, 2)
+            P2 = P2 + [list(sh)] * rng.randint(1, 3)
+        M = rng.choice([1, 3, 10, 50])
+        want = _oracle(P1, P2, M)
+        for dt in (int, float):
+            with warnings.catch_warnings():
+                warnings.simplefilter("ignore")
+                got = float(_swf(np.array(P1, dtype=dt).reshape(-1, 2), np.array(P2, dtype=dt).reshape(-1, 2), M=M))
+            evals += 1
+            distinct.add(("typed", np.dtype(dt).kind, len(P1), len(P2)))
+            if got != got or abs(got - want) > _tol(P1, P2, want):
+                rep.violation("sliced_wasserstein of integer-valued diagrams stored as %s = %r but the averaged sorted-L1 cost is %r (%s, %s, M=%d)" % (np.dtype(dt).name, got, want, P1, P2, M),
+                              "sw:value:typed-or-repeated", {"input": {"PD1": P1, "PD2": P2, "M": M, "dtype": np.dtype(dt).name}, "observed": got, "expected": want})
+                if only_search:
+                    return
+                break
     # shared operands: the same float64 arrays used in several calls (pairwise matrices, triangle checks); every call must still
     # return the distance of the diagrams as the caller built them
-    from persim import sliced_wasserstein as _swf
     for it in range(25 if tier == "quick" else 500):
         lo, hi = rng.choice([(0, 4), (-3, 3), (10, 14)])
         lists = [_rand(rng, rng.randint(1, 5), lo, hi) for _ in range(3)]
